@@ -29,7 +29,8 @@ def sh(cmd, cwd=None, env=None, timeout=None, check=True, capture=True):
 
 
 def workdir(pid):
-    d = os.path.join(WORK, pid)
+    # a run against another tree (VERIF_REPO) gets its own scratch directory: two runs of one check never share files
+    d = os.path.join(WORK, pid if REPO == "/repo" else pid + "_" + hashlib.sha1(REPO.encode()).hexdigest()[:8])
     os.makedirs(d, exist_ok=True)
     return d
 
